@@ -113,7 +113,7 @@ def importsOKe (e : PyExpr) : Bool :=
   e.refs.all fun pc => e.types.all fun t =>
     t.module == builtinsMod || t.path.headD [] != pc.1.headD [] || t.module == pc.2.module
 
-def importsOK (W : World) (v : Val) : Bool := importsOKe (render W v)
+def importsOK (W : World) (v : Val) : Bool := importsOKe (render W v)  -- implied by `renders W v` for well-formed values in the domain
 
 /-- all references of `e` resolve in `env` to the classes they mean -/
 def EnvGood (W : World) (env : Env) (refs : List (List Str × ClsRef)) : Prop :=
